@@ -56,7 +56,7 @@ func (c16) Rule() string {
 		"ones the protocol allows for a racing client (epoch mismatch after a compaction, not-attached after a deactivation) is " +
 		"a violation; (5) C04's offline oracle over the recorded RPC events and the stored log of every document, and " +
 		"convergence of the replicas still attached after closing rounds. Non-trivial = >=3 clients pushed, >=1 compaction or " +
-		"deactivation ran concurrently, >=50 overlapping request pairs."
+		"deactivation ran concurrently, >=50 overlapping request pairs. Every second storm runs in a project with an attachment limit, so that the doc-attachment locker is in use."
 }
 func (c16) Assumptions() []string {
 	return []string{"memdb backend, single node (the Cluster service loops back into the same process)",
